@@ -91,6 +91,43 @@ def canary_count(traces):
                 return c, 'the semaphore count not lowered by remove(): one more than the deque holds from then on'
 
 
+def pool_validation(tier, extra_cov):
+    """the SMTP / LMTP pool executions, validated as behaviours of the design model RelayPool itself (spec/Trace_PoolD.tla)"""
+    from .. import poold
+    from ..common import MachineryError
+
+    def post(oc, traces, summaries):
+        proj = [p for p in (poold.project(t) for t in traces) if p]
+        if tier == 'quick':
+            proj = [p for k, p in enumerate(proj) if k % 2 == 0]        # (every other execution in the quick tier)
+        if not proj:
+            return
+        can = None
+        for p in proj:          # binding canary: one request more in the queue than there is (where nothing is ever sent back)
+            ks = [i for i, e in enumerate(p['ev']) if e['t'] == 'pool']
+            if ks and p['nrq'] == 0:
+                can = copy.deepcopy(p)
+                can['id'] = max(x['id'] for x in proj) + 1
+                can['ev'][ks[len(ks) // 2]]['q'] += 1
+                break
+        r = poold.validate(proj + ([can] if can else []))
+        ver = r['verdicts']
+        can_ok = bool(can) and ver.pop(can['id'])[0] == 'OK'
+        cls = {t['id']: t.get('cls', 'any') for t in traces}
+        drift, samples = {}, []
+        for tid, (v, d) in sorted(ver.items()):
+            if v != 'OK':
+                drift[cls[tid]] = drift.get(cls[tid], 0) + 1
+                if len(samples) < 3:
+                    samples.append({'trace_id': tid, 'cls': cls[tid], 'verdict': v, 'detail': d})
+        if can_ok and not drift and not oc.violations:
+            raise MachineryError('binding canary accepted by Trace_PoolD: one request more in the queue than there is')
+        extra_cov['design_model_validation'] = {
+            'module': 'Trace_PoolD (EXTENDS RelayPool)', 'traces': len(proj), 'accepted': sum(1 for v in ver.values() if v[0] == 'OK'),
+            'drift': drift, 'tlc_states': r['states'], 'wall_s': r['wall_s'], 'canary_rejected': bool(can) and not can_ok, 'drift_samples': samples}
+    return post
+
+
 def run(tier):
     wd = workdir('C19')
     q = tier == 'quick'
@@ -170,11 +207,11 @@ CHECK_DEADLOCK FALSE
                'cfg': flow.write_cfg(wd, 'bd_kf1.cfg', BD_CFG % (3, 'TRUE', 'FALSE')), 'expect_violation': ['C19_CountIsLength', 'C19_NoEmptyPop']})
     mc.append({'name': 'deviation KF_ExtendOneRelease: TLC must find the items nobody is woken for', 'module': 'BlockingDeque',
                'cfg': flow.write_cfg(wd, 'bd_kf2.cfg', BD_CFG % (3, 'FALSE', 'TRUE')), 'expect_violation': ['C19_CountIsLength', 'C19_NoStrandedWaiter']})
+    extra_cov = {'model_replay': infos}
     return flow.standard(
         'C19', tier, mc, 'c19', 'Trace_Pool', 'Trace_Pool.cfg', [canary_bound, canary_other_result, canary_stranded, canary_foreign_failure],
         extras=[{'driver': 'c11m', 'module': 'Trace_Pool', 'cfg': 'Trace_Pool.cfg', 'args': (behfile,)},
                 {'driver': 'c19q', 'module': 'Trace_Deque', 'cfg': 'Trace_Deque.cfg', 'canaries': [canary_count]}],
-        extra_cov={'model_replay': infos},
         level='model_checking',
         rule='2-4 attempt() calls staggered by eight call/settle/advance schedules through the real StaticSmtpRelay / '
              'StaticLmtpRelay, pool size 1, 2, 3 or unbounded, idle timeout none or 5, PIPELINING on/off, each of up to six '
@@ -192,7 +229,7 @@ CHECK_DEADLOCK FALSE
                      'server-initiated time-outs noticed through has_reply_waiting() need a real file descriptor and are not '
                      'driven by the in-memory peer; the requeue path is covered by the design model only'],
         trusted=['TLC 1.8', 'CommunityModules Json/IOUtils', 'harness/rdrv.py', 'harness/vt.py'],
-        wd=wd, clause_filter=lambda c: c.startswith('C19_'))
+        wd=wd, clause_filter=lambda c: c.startswith('C19_'), extra_cov=extra_cov, post=pool_validation(tier, extra_cov))
 
 
 def replay(path):
